@@ -38,6 +38,8 @@ def gen(rng, tier):
     from e2_world import catalog as C
     kind = rng.choice(['rvint', 'rvint', 'pack9', 'pack9', 'packedpid', 'pid', 'two', 'none'])
     n = rng.choice([0, 1, 2, 5, rng.randrange(0, 41)])
+    if rng.random() < 0.01 and kind != 'pack9':
+        n = rng.choice([65536, 100000])
     serials = [rng.randrange(1, 900000) for _ in range(n)]
     box = rng.choice([50.0, 500.0, 2000.0])
     header = {'BoxSize': box, 'VelZSpace_to_kms': rng.choice([777.0, 3200.0]), 'ppd': float(rng.choice([64, 1000])),
